@@ -1,4 +1,5 @@
 import FrappyDrive.Util
+import FrappyDrive.DTypes
 import FrappyModel.Spec.C04
 import FrappyModel.Generated.C04
 /- line-protocol glue for C04 (and the node parser shared with C06).
@@ -56,26 +57,26 @@ abbrev Table (α : Type) := List (String × α)
 def Table.get {α : Type} (t : Table α) (k : String) : Option α := (t.find? (fun e => e.1 == k)).map (·.2)
 
 structure Tables where
-  accept : Table (Except Err VV) := []      -- mod, attr, j, prev
-  reval : Table (Except Err VV) := []       -- mod, attr, v
-  convert : Table (Except Err VV) := []     -- mod, attr, raw
+  accept : Table (Except Node.Err VV) := []      -- mod, attr, j, prev
+  reval : Table (Except Node.Err VV) := []       -- mod, attr, v
+  convert : Table (Except Node.Err VV) := []     -- mod, attr, raw
   exportT : Table JJ := []                   -- mod, attr, v
-  cmdaccept : Table (Except Err VV) := []   -- mod, attr, j
-  cmdconvert : Table (Except Err VV) := []  -- mod, attr, raw
+  cmdaccept : Table (Except Node.Err VV) := []   -- mod, attr, j
+  cmdconvert : Table (Except Node.Err VV) := []  -- mod, attr, raw
   cmdexport : Table JJ := []                -- mod, attr, v
   le : Table Bool := []
   lt : Table Bool := []
   split : Table (VV × VV) := []
   chk : Table CheckRes := []                -- mod, attr, id, v
 
-def miss (what key : String) : Err := ⟨.internal, s!"ORACLE-MISS {what} {key.replace sep "|"}"⟩
+def miss (what key : String) : Node.Err := ⟨.internal, s!"ORACLE-MISS {what} {key.replace sep "|"}"⟩
 
-def parseErr (a : List Json) : R Err :=
+def parseErr (a : List Json) : R Node.Err :=
   match a with
   | [_, .str cls, .str ident] => pure ⟨clsOfName cls, ident⟩
   | _ => throw "bad error"
 
-def parseRes (j : Json) : R (Except Err VV) := do
+def parseRes (j : Json) : R (Except Node.Err VV) := do
   let a ← arr j
   match a with
   | [.str "ok", .str v] => return .ok v
@@ -125,7 +126,7 @@ def parseTables (j : Json) : R Tables := do
       | _ => throw "bad chk"))
   return { accept, reval, convert, exportT, cmdaccept, cmdconvert, cmdexport, le, lt, split, chk }
 
-def lookR (t : Table (Except Err VV)) (what key : String) : Except Err VV := (t.get key).getD (.error (miss what key))
+def lookR (t : Table (Except Node.Err VV)) (what key : String) : Except Node.Err VV := (t.get key).getD (.error (miss what key))
 
 def mkDt (t : Tables) (mod attr : String) (datainfo : JJ) : DtOps JJ VV where
   accept := fun j prev => lookR t.accept "accept" (mkKey [mod, attr, j, optKey prev])
@@ -166,7 +167,7 @@ def parseAcc (t : Tables) (mod : String) (j : Json) : R (Acc JJ VV) := do
     let re ← fld j "readerror"
     let readerror ← if re.isNull then pure none else do
       match ← arr re with
-      | [.str cls, .str ident] => pure (some (Err.mk (clsOfName cls) ident))
+      | [.str cls, .str ident] => pure (some (Node.Err.mk (clsOfName cls) ident))
       | _ => throw "bad readerror"
     return .param {
       attr, exp, limitHead := ← optS (← fld j "limitHead"),
@@ -241,7 +242,7 @@ def msgJson : Msg JJ → Json
 
 def cacheJson (c : Cache VV) : Json :=
   jarr (c.flatMap (fun me => me.2.map (fun ae =>
-    jarr [Json.str me.1, Json.str ae.1, Json.str ae.2.value, jopt (fun e : Err => Json.str (nameOfCls e.cls)) ae.2.readerror])))
+    jarr [Json.str me.1, Json.str ae.1, Json.str ae.2.value, jopt (fun e : Node.Err => Json.str (nameOfCls e.cls)) ae.2.readerror])))
 
 def outJson (o : Outcome JJ VV) : Json :=
   Json.mkObj [("reply", replyJson o.reply), ("calls", jarr (o.calls.map callJson)),
@@ -284,6 +285,42 @@ def stripIdent (c : Cache VV) : Cache VV :=
 
 def runSteps (n : Node JJ VV) : List (Env VV × Request JJ) → List (Outcome JJ VV) := run predef n
 
+/-- rows `[step, mod, attr, payload, previous, {"ok": value} | {"err": class}]` of the accept oracle, for parameters
+whose datatype tree is given in `dtrees` (`[mod, attr, tree]`): first row the datatype model (C01) disagrees with -/
+def checkAcceptRows (j : Json) : R (Option (Nat × String)) := do
+  let trees ← match j.getObjVal? "dtrees" with
+    | .error _ => pure []
+    | .ok t => (← arr t).mapM (fun row => do
+        match ← arr row with
+        | [.str m, .str a, tree] => return (mkKey [m, a], ← dtypeOfJson tree)
+        | _ => throw "bad dtree row")
+  let rows ← match j.getObjVal? "acceptck" with
+    | .error _ => pure []
+    | .ok t => arr t
+  for row in rows do
+    match ← arr row with
+    | [step, .str m, .str a, payload, prev, res] =>
+      match (trees.find? (fun e => e.1 == mkKey [m, a])).map (·.2) with
+      | none => pure ()
+      | some dt =>
+        let jv ← jvalOfJson payload
+        let pv ← optPVal prev
+        let impl : Except Frappy.Err (PVal Float) ← match res.getObjVal? "ok", res.getObjVal? "err" with
+          | .ok v, _ => do pure (.ok (← pvalOfJson v))
+          | _, .ok (.str "RangeError") => pure (.error .range)
+          | _, .ok (.str "WrongType") => pure (.error .wrongType)
+          | _, .ok (.str c) => pure (.error (.other c))
+          | _, _ => throw "bad accept result"
+        if !(acceptFaithfulB dt jv pv impl) then
+          let model := match Frappy.Datatypes.acceptWire dt jv pv with
+            | .ok v => (pvalToJson v).compress
+            | .error .range => "RangeError"
+            | .error .wrongType => "WrongType"
+            | .error (.other c) => c
+          return some (← step.getNat?, s!"accept-oracle {m}.{a}: the datatype model says {model}, the implementation {res.compress}")
+    | _ => throw "bad acceptck row"
+  return none
+
 def handle (j : Json) : R Json := do
   let k ← fldStr j "k"
   match k with
@@ -323,6 +360,8 @@ def handle (j : Json) : R Json := do
           | .read .. => "read-only"
         bad := some (i, why)
       i := i + 1
+    if bad.isNone then
+      bad ← checkAcceptRows j
     return Json.mkObj [("bad", jopt (fun b : Nat × String => jarr [jnat b.1, Json.str b.2]) bad)]
   | _ => throw s!"C04: unknown verb {k}"
 
